@@ -108,7 +108,13 @@ func formatArrayTypeName(v string) string {
 
 //ExtractValue info
 func ExtractValue(v reflect.Value, extractor ValueExtractor) {
-	v = RawValue(v)
+	// a nil pointer is descended by type, like an empty slice or map
+	for v.Kind() == reflect.Ptr {
+		if v.IsNil() {
+			v = reflect.New(v.Type().Elem())
+		}
+		v = v.Elem()
+	}
 
 	if !extractor(v) {
 		return
